@@ -214,9 +214,10 @@ def ev_optimize(c_raw, obj, maximize, via="contract"):
 
 
 # ------------------------------------------------------------------ runner
-def run(prop, tier, cases, run_case, rule, owner, replay=None, nontrivial=None, batch=300, sig_of=None):
-    rep = Report(prop, tier)
-    rd = run_dir(prop)
+def run(prop, tier, cases, run_case, rule, owner, replay=None, nontrivial=None, batch=300, sig_of=None, rep=None):
+    collect = rep is not None
+    rep = rep or Report(prop, tier)
+    rd = run_dir(prop + ("-sub" if collect else ""))
     if replay:
         with open(replay) as f:
             cases = [json.load(f)["case"]["case"]]
@@ -249,6 +250,8 @@ def run(prop, tier, cases, run_case, rule, owner, replay=None, nontrivial=None, 
             if l == 1:
                 rep.sample({"event": family.clean_json({k: v for k, v in ev.items() if k != "hints"}), "verdict": [kind, detail]})
     shutil.rmtree(rd, ignore_errors=True)
+    if collect:
+        return {"evaluations": n_ev, "nontrivial": nontriv, "traces": len(traces), "verdict_counts": counts}
     return rep.finish({
         "evaluations": n_ev,
         "distinct_nontrivial": len(nontriv),
